@@ -192,6 +192,12 @@ def run(ctx):
         for item in " ".join(kv).split():
             last[item.split("=")[0]] = item
         runlines.append("cfgbuild rate=%d run=0.5 %s" % (rate, " ".join(last.values())))
+        if len(runlines) % 5 == 0 or "sqc" in last or "inv" in last:
+            runlines.append("cfgbuild rate=%d run=8 long=1 %s" % (rate, " ".join(last.values())))
+    # the combination that lets a burst grow as long as it can: no power squelch, a large invalid-byte budget
+    for rate in ([22050] if q else [8000, 22050, 48000]):
+        runlines.append("cfgbuild rate=%d run=8 long=1 sqo=0 sqc=0 inv=%d" % (rate, rng.choice([50, 200, 1000])))
+        runlines.append("cfgbuild rate=%d run=8 long=1 sqo=0 sqc=0" % rate)
     runs = vlib.run_lines_parallel(vlib.IMPLRUN, runlines)
     run_ok = 0
     for l, o in zip(runlines, runs):
